@@ -571,6 +571,59 @@ var dirHandFiles = []string{
 
 // runDir writes the sources as f0.go, f1.go ... into a fresh directory, parses it with ParseDir and
 // prints every file.
+// runPackage: the files parsed into one file set, joined by ast.NewPackage (so that names of one file are
+// resolved to declarations in another), decorated as a package in one DecorateNode call and each
+// printed by a Restorer that restores the object graph as well (Extras): still the source bytes.
+func runPackage(srcs [][]byte) ([][]byte, string) {
+	out := make([][]byte, len(srcs))
+	var perr error
+	msg := guard(func() {
+		fset := token.NewFileSet()
+		files := map[string]*ast.File{}
+		for i, s := range srcs {
+			name := fmt.Sprintf("f%d.go", i)
+			af, err := parser.ParseFile(fset, name, s, parser.ParseComments)
+			if err != nil {
+				perr = err
+				return
+			}
+			files[name] = af
+		}
+		pkg, _ := ast.NewPackage(fset, files, nil, nil) // unresolved imports and redeclarations are reported, the package is built anyway
+		if pkg == nil {
+			perr = fmt.Errorf("harness: ast.NewPackage returned nil")
+			return
+		}
+		dn, err := decorator.NewDecorator(fset).DecorateNode(pkg)
+		if err != nil {
+			perr = err
+			return
+		}
+		for fn, f := range dn.(*dst.Package).Files {
+			var i int
+			fmt.Sscanf(filepath.Base(fn), "f%d.go", &i)
+			r := decorator.NewRestorer()
+			r.Extras = true
+			var buf bytes.Buffer
+			if err := r.Fprint(&buf, f); err != nil {
+				perr = err
+				return
+			}
+			out[i] = buf.Bytes()
+		}
+	})
+	if msg != "" {
+		return nil, msg
+	}
+	if perr != nil {
+		if strings.HasPrefix(perr.Error(), "harness:") {
+			return nil, perr.Error()
+		}
+		return nil, "error: " + perr.Error()
+	}
+	return out, ""
+}
+
 func runDir(srcs [][]byte) ([][]byte, string) {
 	dir, err := os.MkdirTemp("", "dstv-dir-")
 	if err != nil {
@@ -658,14 +711,28 @@ func c01Dirs(c *Ctx) {
 		out [][]byte
 		msg string
 	}
+	// every case twice: through ParseDir, and as a package joined by ast.NewPackage printed with Extras
+	nDir := len(cases)
+	cases = append(cases, cases...)
 	rs := make([]res, len(cases))
-	parallel(len(cases), func(i int) { rs[i].out, rs[i].msg = runDir(cases[i]) })
+	parallel(len(cases), func(i int) {
+		if i < nDir {
+			rs[i].out, rs[i].msg = runDir(cases[i])
+		} else {
+			rs[i].out, rs[i].msg = runPackage(cases[i])
+		}
+	})
 	for i, cs := range cases {
 		var hs []string
 		for _, s := range cs {
 			hs = append(hs, shortHash(string(s)))
 		}
 		key := "dir|" + strings.Join(hs, "+")
+		entry := "ParseDir"
+		if i >= nDir {
+			key = "package+extras|" + strings.Join(hs, "+")
+			entry = "NewPackage+DecorateNode+Restorer{Extras}"
+		}
 		c.Eval(key, true)
 		var srcs []string
 		for _, s := range cs {
@@ -676,32 +743,40 @@ func c01Dirs(c *Ctx) {
 			return
 		}
 		if rs[i].msg != "" {
-			c.Fail(Finding{Sig: "roundtrip-fails", Input: key, What: "ParseDir on a directory of " + fmt.Sprint(len(cs)) + " files: " + rs[i].msg, Replay: obj{"kind": "c01dir", "srcs": srcs}})
+			c.Fail(Finding{Sig: "roundtrip-fails", Input: key, What: entry + " on " + fmt.Sprint(len(cs)) + " files: " + rs[i].msg, Replay: obj{"kind": "c01dir", "srcs": srcs, "entry": entry}})
 			continue
 		}
 		for j := range cs {
 			if !bytes.Equal(rs[i].out[j], cs[j]) {
 				if unindentClosingComments(rs[i].out[j]) == unindentClosingComments(cs[j]) {
-					c.Fail(Finding{Sig: "comment-before-closing-bracket-reindented", Input: "closing-aligned|" + key, What: fmt.Sprintf("ParseDir, file f%d.go: %s", j, diffAt(cs[j], rs[i].out[j])), Replay: obj{"kind": "c01dir", "srcs": srcs}})
+					c.Fail(Finding{Sig: "comment-before-closing-bracket-reindented", Input: "closing-aligned|" + key, What: fmt.Sprintf("%s, file f%d.go: %s", entry, j, diffAt(cs[j], rs[i].out[j])), Replay: obj{"kind": "c01dir", "srcs": srcs, "entry": entry}})
 					continue
 				}
-				c.Fail(Finding{Sig: "roundtrip-bytes-differ", Input: key, What: fmt.Sprintf("ParseDir on a directory of %d files, file f%d.go: %s", len(cs), j, diffAt(cs[j], rs[i].out[j])), Replay: obj{"kind": "c01dir", "srcs": srcs}})
+				c.Fail(Finding{Sig: "roundtrip-bytes-differ", Input: key, What: fmt.Sprintf("%s on %d files, file f%d.go: %s", entry, len(cs), j, diffAt(cs[j], rs[i].out[j])), Replay: obj{"kind": "c01dir", "srcs": srcs, "entry": entry}})
 				break
 			}
 		}
 	}
-	c.Set("directories", len(cases))
+	c.Set("directories", nDir)
+	c.Set("packages_with_extras", len(cases)-nDir)
 }
 
 func init() {
 	replayers["c01dir"] = func(raw json.RawMessage) string {
-		var r struct{ Srcs []string }
+		var r struct {
+			Srcs  []string
+			Entry string
+		}
 		json.Unmarshal(raw, &r)
 		var cs [][]byte
 		for _, s := range r.Srcs {
 			cs = append(cs, []byte(s))
 		}
-		out, msg := runDir(cs)
+		run := runDir
+		if strings.HasPrefix(r.Entry, "NewPackage") {
+			run = runPackage
+		}
+		out, msg := run(cs)
 		if msg != "" {
 			return msg
 		}
